@@ -507,11 +507,19 @@ def _wallet_history(ctx: Ctx, rng: SimRng) -> None:
             ctx.check(P, "read-only-leaves-ledger", snapshot() == before, "script_pub_key changed the ledger")
         elif op == "position_of":
             before = snapshot()
-            i = ch.draw(6, "index")
+            i = ch.pick([0, 1, 2, 3, 5, 8, 13, 40], "index")  # the indexes address() hands out, so that some are in the ledger
+            bound = ch.pick([8, 0, 2, 4, 13, 45], "last_index")
+            spelled = ch.pick(["spk", "script", "address"], "position_of.form")
+            target = twin.script_pub_key(b, i)
+            query = target if spelled == "spk" else target.script if spelled == "script" else target.address
             with ctx.must_succeed("C14", "position-of-answers"):
-                w.position_of(twin.script_pub_key(b, i), 8)
+                got = w.position_of(query, bound)
+                fresh = twin.position_of(query, bound)
                 if ch.draw(2, "alien"):
                     w.position_of(b"\x00\x14" + bytes(20), 3)
+            # what the wallet handed out before is no input of this question: a wallet of the same source
+            # that never handed anything out (the twin) answers the same
+            ctx.check(P, "position-of-independent-of-ledger", got == fresh, lambda: f"position_of({b}/{i} as {spelled}, last_index={bound}) = {got}, a fresh wallet of the same source says {fresh}; handed out so far: {sorted(nxt.items())}", site="position_of")
             ctx.check(P, "read-only-leaves-ledger", snapshot() == before, "position_of changed the ledger")
         elif op == "info":
             before = snapshot()
